@@ -342,3 +342,11 @@ def c06_7(ctx):
         ctx.fail(fn, k[0], '`%s` removes every occurrence of the prefix text, also inside the column name' % U(k[0].value))
     else:
         raise AnalysisError('unrecognised derivation of the column name: %s' % U(k[0].value))
+
+
+@obligation('C06.8', 'TABLES (shared with C01.11)', '_dictable:dict_concat',
+            'inc/exc with a callable rebuild the table from the surviving ROWS: records are transposed by dict_concat, whose one-record shortcut must wrap each cell as [value] (as_list(None) is [], which would turn a surviving row holding a None cell into an empty table and break the partition)',
+            axioms=())
+def c06_8(ctx):
+    from . import C01 as _c01
+    _c01.check_dict_concat(ctx)
